@@ -330,6 +330,7 @@ FACTORS_QUICK = collections.OrderedDict([
     ("lang", LANGS), ("gs", GS), ("omit", [0, 1]), ("gnt", [0, 1]), ("tpl", ["none", "copy", "tree"]),
     ("stpl", ["none", "shadow"]), ("ext", [None, ".xx", "yy"]), ("stem", [None, "nsx"]),
     ("ns", ["plain", "lookup"]), ("out", ["rel", "abs", "dotslash", "updown", "symup", "relsymup"]), ("inp", ["plain", "messy", "symlink", "rel"]),
+    ("lk", ["arg", "env"]),     # lookup directories through --lookup-dir or through DSDL_INCLUDE_PATH
 ])
 
 
@@ -450,8 +451,9 @@ class Sandbox:
             a.append("--output-extension=" + c["ext"])
         if c.get("stem") is not None:
             a.append("--namespace-output-stem=" + c["stem"])
-        for l in self.spec["lookups"]:
-            a += ["--lookup-dir", self.spell(self.ind / l)]
+        if c.get("lk", "arg") == "arg":
+            for l in self.spec["lookups"]:
+                a += ["--lookup-dir", self.spell(self.ind / l)]
         a += c.get("extra_args", [])
         if flags[0] == "1":
             a.append("--list-outputs")
@@ -463,6 +465,12 @@ class Sandbox:
             a.append("--dry-run")
         a.append(self.spell(self.ind / self.spec["root"]))
         return a
+
+    def env(self):
+        """Lookup directories handed over through the environment (`DSDL_INCLUDE_PATH`) instead of --lookup-dir."""
+        if self.cfg.get("lk", "arg") == "env" and self.spec["lookups"]:
+            return {"DSDL_INCLUDE_PATH": os.pathsep.join(self.spell(self.ind / l) for l in self.spec["lookups"])}
+        return {}
 
     def model_line(self, flags, variant="new"):
         c = self.cfg
@@ -496,8 +504,9 @@ class Sandbox:
         return os.path.realpath(os.path.join(str(self.cwd), p))
 
 
-def nnvg(args, cwd, pythonpath, hashseed=None):
+def nnvg(args, cwd, pythonpath, hashseed=None, env_extra=None):
     env = {k: v for k, v in os.environ.items() if k not in ("DSDL_INCLUDE_PATH", "PYTHONPATH", "PYTHONSTARTUP", "PYTHONHASHSEED")}
+    env.update(env_extra or {})
     env["PYTHONPATH"] = str(pythonpath)
     env["PYTHONDONTWRITEBYTECODE"] = "1"
     if hashseed is not None:
@@ -564,7 +573,7 @@ def execute(sb, flagsets, pythonpath, skip=()):
                     pass
             snap = fss.snapshot([sb.base])
         flags = flagsets[mode]
-        rc, so, se = nnvg(sb.cli_args(flags), sb.cwd, pythonpath)
+        rc, so, se = nnvg(sb.cli_args(flags), sb.cwd, pythonpath, env_extra=sb.env())
         after = fss.snapshot([sb.base])
         d = fss.diff(snap, after)
         obs[step] = {"flags": flags, "rc": rc, "status": classify(rc, se), "stdout": so, "stderr_tail": se.strip()[-600:],
@@ -745,6 +754,13 @@ def evaluate(ctx, sb, obs, model, stream):
                 elif "__pycache__" in n.split("/")[:-1] and p in printed:
                     ctx.fail({"kind": "list-inputs-names-bytecode"}, "--list-inputs prints a file below a __pycache__ directory (changes by itself)",
                              {"cfg": ck, "file": os.path.relpath(p, base)})
+        # definitions of the lookup directories that a root type embeds / takes a constant from (the harness wrote them)
+        dep_files = sorted({d for e in sb.entries if not e["isNs"] for d in e["deps"]} - set(must))
+        missing_deps = sorted(set(dep_files) - printed)
+        if missing_deps:
+            ctx.fail({"kind": "unlisted-input", "class": "lookup-dsdl", "lookup_through": cfg.get("lk", "arg")},
+                     "--list-inputs omits a definition of a lookup directory that a generated type depends on",
+                     {"cfg": ck, "missing": rel(missing_deps), "cli": sb.cli_args(li["flags"]), "env": sb.env()})
         missing = sorted(set(must) - printed)
         if missing:
             ctx.fail({"kind": "unlisted-input", "class": "structural"} | ({"with_list_configuration": 1} if li["flags"][2] == "1" else {}),
@@ -918,15 +934,15 @@ class MutationSearch:
         for mi, cfg in enumerate(mconfigs):
             sb = self.setup(slot0, cfg, f"base{mi}")
             pp = slot0 / "pkg"
-            rc, so, se = nnvg(sb.cli_args("0100"), sb.cwd, pp, hashseed=0)
+            rc, so, se = nnvg(sb.cli_args("0100"), sb.cwd, pp, hashseed=0, env_extra=sb.env())
             if rc != 0:
                 ctx.disagree("mutation:baseline", cfg_key(cfg), "ok", classify(rc, se) + " " + se[-300:])
                 continue
             listed = set(self.relname(slot0, sb, x) for x in split_list(so))
-            rc1, _, se1 = nnvg(sb.cli_args("0000"), sb.cwd, pp, hashseed=0)
+            rc1, _, se1 = nnvg(sb.cli_args("0000"), sb.cwd, pp, hashseed=0, env_extra=sb.env())
             out1 = self.outputs_of(sb, slot0)
             shutil.rmtree(sb.norm(sb.outarg), ignore_errors=True)
-            rc2, _, _ = nnvg(sb.cli_args("0000"), sb.cwd, pp, hashseed=0)
+            rc2, _, _ = nnvg(sb.cli_args("0000"), sb.cwd, pp, hashseed=0, env_extra=sb.env())
             out2 = self.outputs_of(sb, slot0)
             if rc1 != 0 or rc2 != 0:
                 ctx.disagree("mutation:baseline", cfg_key(cfg), "ok", classify(rc1, se1) + " " + se1[-300:])
@@ -968,7 +984,7 @@ class MutationSearch:
                 cfg = info[mi]["cfg"]
                 if (slot, mi) not in baselines:
                     sb = self.setup(slot, cfg, "w")
-                    rc, _, se = nnvg(sb.cli_args("0000"), sb.cwd, slot / "pkg", hashseed=0)
+                    rc, _, se = nnvg(sb.cli_args("0000"), sb.cwd, slot / "pkg", hashseed=0, env_extra=sb.env())
                     baselines[(slot, mi)] = self.outputs_of(sb, slot) if rc == 0 else None
                     shutil.rmtree(sb.base, ignore_errors=True)
                 sb = self.setup(slot, cfg, "w")
@@ -977,7 +993,7 @@ class MutationSearch:
                 name, new = mutations(target)[k]
                 try:
                     pathlib.Path(target).write_text(new)
-                    rc, _, se = nnvg(sb.cli_args("0000"), sb.cwd, slot / "pkg", hashseed=0)
+                    rc, _, se = nnvg(sb.cli_args("0000"), sb.cwd, slot / "pkg", hashseed=0, env_extra=sb.env())
                     out = self.outputs_of(sb, slot) if rc == 0 else None
                 finally:
                     pathlib.Path(target).write_bytes(original)
@@ -1071,7 +1087,8 @@ def api_history(lang, omit, seq, work):
         d = fss.diff(before, after)
         if op == "G":
             made = sorted(x for x in d.created if after[x].kind != "d")
-            sdir = str(out / pathlib.Path(*[c for c in lctx.get_target_language().support_namespace if c])) if lang != "py" else None
+            scomps = [c for c in lctx.get_target_language().support_namespace if c]
+            sdir = str(out / pathlib.Path(*scomps)) if (lang != "py" and scomps) else None   # html: no support namespace, no support files
             r = {"support": [m for m in made if (sdir and m.startswith(sdir + os.sep)) or (lang == "py" and os.path.basename(m) == "nunavut_support.py")]}
             r["types"] = [m for m in made if m not in r["support"]]
         res.append((op, r, d))
@@ -1262,7 +1279,7 @@ def run(ctx: common.Ctx):
         ctx.rng.shuffle(full)
         for c in full:
             c.update(stpl=ctx.rng.choice(["none", "shadow"]), ns=ctx.rng.choice(["plain", "lookup", "solo", "random"]),
-                     out=ctx.rng.choice(list(OUT_STYLES)), inp=ctx.rng.choice(IN_STYLES))
+                     out=ctx.rng.choice(list(OUT_STYLES)), inp=ctx.rng.choice(IN_STYLES), lk=ctx.rng.choice(["arg", "env"]))
         grid += full
     ctx.extra["domain"] = {"corpus": len(corpus), "grid_configurations": len(grid)}
     run_stream(ctx, "corpus", corpus, specs, drv, src, pkg_lang_dir)
@@ -1293,12 +1310,12 @@ def run(ctx: common.Ctx):
     def mc(lang, ns, tpl="none", stpl="none", gs="as-needed", gnt=0):
         return {"lang": lang, "gs": gs, "omit": 0, "gnt": gnt, "tpl": tpl, "stpl": stpl, "ext": None, "stem": None, "ns": ns, "out": "rel"}
     if ctx.quick:
-        mcfgs = [mc("c", "lookup"), mc("html", "plain"), mc("py", "lookup", tpl="copy", stpl="shadow"), mc("c", "plain", tpl="tree", gnt=1),
+        mcfgs = [dict(mc("c", "lookup"), lk="env"), mc("html", "plain"), mc("py", "lookup", tpl="copy", stpl="shadow"), mc("c", "plain", tpl="tree", gnt=1),
                  dict(mc("c", "plain", stpl="shadow"), inp="rel")]
     else:
         mcfgs = []
         for l in LANGS:
-            mcfgs += [mc(l, "plain"), mc(l, "lookup"), mc(l, "lookup", "copy", "shadow")]
+            mcfgs += [mc(l, "plain"), dict(mc(l, "lookup"), lk="env"), mc(l, "lookup", "copy", "shadow")]
             mcfgs.append(mc(l, "random", "copy", "shadow") if l in ("c", "py") else mc(l, "random"))
             mcfgs.append(mc(l, "plain", tpl="tree", gnt=1))
             mcfgs.append(dict(mc(l, "plain", tpl="copy" if l in ("cpp", "py") else "none", stpl="shadow"), inp="rel"))
